@@ -202,6 +202,14 @@ func (h *AnnouncePingHandler) Handle(w *mgr.WorkerCtx, f frame.Frame, hdr *PingH
 		return nil
 	}
 
+	// The frame may have been waiting for a worker while its link went down.
+	// All routes via that peer were removed then: do not bring one back.
+	// (A link that goes down after this check removes the new route itself.)
+	if added && h.r.instance.Peering().GetLink(recvLink.Peer()) == nil {
+		h.r.table.RemoveNextHop(recvLink.Peer())
+		return errors.New("announce ping was received on a link that is gone")
+	}
+
 	// Never forward if router is a stub.
 	if h.r.instance.Config().Router.Stub {
 		return nil
